@@ -679,7 +679,8 @@ def precession_ecliptical(
         start_lat.rad()
     ) * sin(pie.rad() - start_lon.rad())
     final_lon = p.rad() + pie.rad() - atan2(a, b)
-    final_lat = asin(c)
+    # asin(c) loses accuracy close to the poles of the ecliptic
+    final_lat = atan2(c, sqrt(a * a + b * b))
     # Convert results to Angles. Please note results are in radians
     final_lon = Angle(final_lon, radians=True)
     final_lat = Angle(final_lat, radians=True)
